@@ -31,6 +31,14 @@ def build_model(rng, dt):
     return kind, m.to(dt), shape
 
 
+def ref_range_scale(t, qtype):
+    """the property's per-batch quantity, computed here and not by the library: max|t| / qmax in the dtype of `t`, never null
+    (the smallest positive value of the dtype stands for a null range)"""
+    qmax = float(torch.finfo(qtype.dtype).max) if qtype.is_floating_point else float(torch.iinfo(qtype.dtype).max)
+    fi = torch.finfo(t.dtype)
+    return torch.clamp(torch.max(torch.abs(t)) / qmax, min=fi.tiny * fi.eps)
+
+
 def run_history(ctx, rng, cfg=None):
     import optimum.quanto as q
     from optimum.quanto import Calibration, QBytesTensor, absmax_scale, quantize
@@ -57,7 +65,7 @@ def run_history(ctx, rng, cfg=None):
                 if isinstance(x, QBytesTensor):
                     events[_n]["in"].append(("a", torch.max(x._scale)))
                 else:
-                    events[_n]["in"].append(("b", absmax_scale(x, module.activation_qtype)))
+                    events[_n]["in"].append(("b", ref_range_scale(x, module.activation_qtype)))
 
             def post(module, inp, out, _n=name):
                 if module.activation_qtype is None:
@@ -66,7 +74,7 @@ def run_history(ctx, rng, cfg=None):
                 raw = module.qforward(inp[0])
                 if isinstance(raw, QBytesTensor):
                     raw = raw.dequantize()
-                events[_n]["out"].append(("b", absmax_scale(raw, module.activation_qtype)))
+                events[_n]["out"].append(("b", ref_range_scale(raw, module.activation_qtype)))
 
             handles.append(mod.register_forward_pre_hook(pre))
             handles.append(mod.register_forward_hook(post))
